@@ -54,6 +54,35 @@ CHECKS = {
              "replaced by symbols. Bounded: mask tables of <= 3 (quick) / 5 (thorough) entries. Outside: motion with the Earth's "
              "rotation in inertial frames (rotation providers are C02).",
         ref="DESIGN.md section 3 C11", technique=TECH),
+    "C12": dict(
+        text="(a) The two format templates of Tle.from_orbit and the constant slices of Tle.__init__ are read from the AST of the "
+             "current tle.py and turned into z3 string/integer constraints: each line fills exactly 68 columns before the checksum and, "
+             "for every content of the declared width (integer fields: every value of the range rendered right-aligned), the parser's "
+             "slice recovers the writer's field. (b) The real _checksum and _check_validity run on 69 symbolic characters over the TLE "
+             "alphabet: the result is (sum of per-column summands) mod 10 with every summand proved equal to the digit value / 1 for "
+             "'-' / 0 otherwise; replacing any single digit by another digit changes the checksum in every column; _check_validity "
+             "accepts iff line numbers, both lengths (68/69/70 explored) and both checksum characters are right. (c) from_string: "
+             "every sequence of up to 4 (quick) / 5 (thorough) lines of kinds {name, line1, line2, comment, blank, corrupted line1} "
+             "yields exactly the valid consecutive entries.",
+        note="Trusted: z3 (sequence theory for the layout queries); the AST extraction; CPython str.format widths. Compositional "
+             "step: sums of summands that agree column by column agree. Outside: numeric precision of the float fields and the "
+             "digit-level _float/_unfloat round trip (floating point / decimal conversion), classification other than U, "
+             "non-canonical encodings of zero or explicit '+' signs.",
+        ref="DESIGN.md section 3 C12", technique="AST-derived SMT (z3 strings/LIA) for the column layout; bounded symbolic execution of the real checksum/validity code on symbolic characters; solver-enumerated line-kind sequences for from_string"),
+    "C20": dict(
+        text="The real utils/node.py is executed on link histories in which every choice -- tree shape (parent vector), insertion "
+             "permutation, orientation of each `+`, neighbour orders of the pre-state, end points -- is a symbolic integer concretised "
+             "by the forking driver through solver feasibility queries; per group the solver then proves that the explored path "
+             "conditions cover the whole choice space and no explored history violates an independent BFS oracle (valid links only, "
+             "shortest chain, unconnected refused; checked after every insertion). Shapes: all tree histories up to the bound; the "
+             "inductive step `one + joining any two correctly-routed disjoint trees` (covers histories of any length); all link "
+             "sequences on small general graphs and all n-cycles under every order/orientation (shortest-chain clause); "
+             "registration of stations / orbit frames under fresh names never changes an existing route. The 4-node tree "
+             "histories are additionally run under CrossHair (`Confirmed over all paths`, with refuted reachability twins).",
+        note="Trusted: z3, CrossHair, the BFS oracle. Bounded: trees <= 4 (quick) / 5 (thorough) nodes by history, inductive step "
+             "<= 5 / 6 nodes in total, general graphs 4 nodes x 3-4 links, cycles up to 5 / 6 nodes. Outside: exhaustive 8-node "
+             "tree histories.",
+        ref="DESIGN.md section 3 C20", technique="solver-driven path exploration of the real node.py over symbolic link histories (z3 feasibility + exhaustiveness query) and CrossHair `check` on the same harness"),
     "C14": dict(
         text="The real Cov.frame setter, Cov.copy and the covariance clause of StateVector.frame's setter run on typed stand-ins: "
              "frames are symbolic integers, Orientation.convert_to / to_local return typed rotations, the covariance value and the "
